@@ -43,6 +43,10 @@ SURROUND = ["plain", "where", "groupby", "join", "nested-order-in", "window-orde
 
 def cases(tier, seed, shard, nshards):
     k = 0
+    for c in update_cases():
+        k += 1
+        if k % nshards == shard:
+            yield c
     for d in DIALECT_CLASSES:
         setters = SETTERS + (MSSQL_SETTERS if d == "MSSQLQuery" else [])
         for setter in setters:
@@ -56,6 +60,16 @@ def cases(tier, seed, shard, nshards):
                                     if k % nshards == shard:
                                         yield {"d": d, "setter": setter, "lim": ln, "off": on, "order": order, "pos": pos,
                                                "mode": mode, "sur": sur}
+
+
+def update_cases():
+    for d in DIALECT_CLASSES:
+        for setter in SETTERS:
+            for ln in LIM:
+                for on in OFF:
+                    for order in (False, True):
+                        for mode in ("inline", "param"):
+                            yield {"k": "update", "d": d, "setter": setter, "lim": ln, "off": on, "order": order, "mode": mode}
 
 
 def base_query(d, order, sur, reg, t, target=None):
@@ -336,7 +350,47 @@ def sqlite_rows(sql, values):
     return _con.execute(sql, values or []).fetchall()
 
 
+def run_update(case, mon):
+    """UPDATE with limit()/offset()/slices: no dialect's UPDATE grammar has an OFFSET; a LIMIT that is written holds the limit
+    value (inline or through its placeholder) and the parameter list holds nothing else from the pagination."""
+    reg = registry()
+    d, mode = case["d"], case["mode"]
+    lim, off = LIM[case["lim"]], OFF[case["off"]]
+    fam = DIALECT_OF[d] if d != "Query" else "generic"
+    t = reg["Table"]("t")
+    base = reg[d].update(t).set(t.a, 1).where(t.b == 2)
+    if case["order"]:
+        base = base.orderby(t.id)
+    try:
+        q, _ = paginate(base, case["setter"], lim, off)
+        sql0, vals0 = render(base, d, mode)
+        sql1, vals1 = render(q, d, mode)
+    except Exception as e:
+        mon.violation("%s:update:raises:%s" % (fam, type(e).__name__), "UPDATE with limit=%r offset=%r raised %r" % (lim, off, e))
+        return
+    mon.count("statements_rendered", 2)
+    mon.count("update_statements")
+    toks = tokenize(sql1, d)
+    if any(tk.kind == "WORD" and tk.value in ("OFFSET", "FETCH") for tk in toks):
+        mon.violation("%s:update-with-offset" % fam, "UPDATE carries an OFFSET/FETCH clause (limit=%r offset=%r via %s, %s): %r" % (lim, off, case["setter"], mode, sql1[:240]))
+        return
+    lims = [i for i, tk in enumerate(toks) if tk.kind == "WORD" and tk.value == "LIMIT"]
+    extra = (len(vals1) - len(vals0)) if mode == "param" else 0
+    if lims:
+        T = Tail(toks[lims[-1] + 1:], vals1, sum(1 for x in toks[:lims[-1]] if x.kind == "PARAM"))
+        got = T.value()
+        if lim is None or got != lim or not T.done() or extra != (1 if mode == "param" else 0):
+            mon.violation("%s:update-limit-value" % fam, "UPDATE LIMIT slot holds %r (limit=%r offset=%r, %d extra values): %r %r" % (got, lim, off, extra, sql1[:200], vals1))
+            return
+    elif extra:
+        mon.violation("%s:update-stray-values" % fam, "%d pagination values in the parameter list of an UPDATE without LIMIT: %r %r" % (extra, sql1[:200], vals1))
+        return
+    mon.nontrivial(case)
+
+
 def run_case(case, mon):
+    if case.get("k") == "update":
+        return run_update(case, mon)
     reg = registry()
     d, pos, mode = case["d"], case["pos"], case["mode"]
     lim, off = LIM[case["lim"]], OFF[case["off"]]
